@@ -271,7 +271,12 @@ def s_mul(a, b):
                     if x.pinf is False and x.ninf is False:
                         return 0.0
                     raise Unsupported("0 * inf")
-                raise Unsupported("symbolic * extended real")
+                # symbolic factor: sound only for a positive factor -> emitted as an obligation (checked, not assumed)
+                from . import explore
+
+                x = _xr(x)
+                explore.EXP.obligation("factor multiplying an extended real is positive", _real(c) > 0)
+                return xr_simplify(XR(x.pinf, _f_mul(x.v, c), x.ninf))
         a, b = _xr(a), _xr(b)
         if not is_sym(a.pinf) and not is_sym(a.ninf) and not is_sym(b.pinf) and not is_sym(b.ninf):
             if (a.pinf or a.ninf) and (b.pinf or b.ninf):
